@@ -825,7 +825,16 @@ func ruleBroadcastShape(r *Run) {
 			path := &paths[pi]
 			r.at(path)
 			held := r.locksAlong(path, lockset{})
+			encFailed := false
 			for i, pe := range path.Events {
+				if pe.Kind == EvGuard {
+					if g := r.Classify(path, i); g.Callee == fromProto && g.Outcome == "err" {
+						encFailed = true
+					}
+				}
+				if r.isSendMsgCall(pe) && encFailed {
+					r.CheckT("C3", fn.Name+":nothing-sent-when-encoding-failed", false, pe.Pos, path, "the message could not be encoded and is delivered all the same (members are sent an empty message)")
+				}
 				if r.isSendMsgCall(pe) {
 					r.CheckT("C3", fn.Name+":delivers-under-lock", held[i]["Session.participantMutex"] != "", pe.Pos, path,
 						"a member is served while the session's participant lock is held (a participant that left must not be served from an earlier snapshot of the membership)")
